@@ -2,6 +2,7 @@
 (not through anything's own types)."""
 import re
 from .driver import Driver
+from . import build
 
 WORD = re.compile(r"^[a-zA-Z0-9°']+$")
 
@@ -12,7 +13,7 @@ def gval(generic, key):
     return None
 
 def load(driver, roundtrip=False):
-    rep = driver.call({"op": "shipped", "dir": "/repo/db", "roundtrip": roundtrip}, timeout=600)
+    rep = driver.call({"op": "shipped", "dir": build.REPO + "/db", "roundtrip": roundtrip}, timeout=600)
     if "constants" not in rep:
         raise RuntimeError("cannot decode shipped data: %r" % (rep,))
     facts = []
